@@ -12,6 +12,14 @@
 //   - Connect(): scripted (Connected | ConnectFailed | ConnectTimeout), listeners
 //     notified with the event, then the error returned — the order of
 //     clientConnection.Connect.
+//   - Close(NoFlush, kind) delivers whatever kind the closer names, as connection.Close does. Who
+//     names which kind in pkg/network: the read loop RemoteClose (EOF / hang-up) and OnReadErrClose
+//     (any other read error); the WRITE PATH (writeDirectly / the write loop) LocalClose (EOF
+//     buffer) and OnWriteTimeout (the raw write ran into the write deadline,
+//     types.DefaultConnWriteTimeout) - any other write error is returned to the writer and does not
+//     close (the read loop is left to notice); everybody else LocalClose; OnWriteErrClose is named
+//     by the tunnel filter only. The optional FailWrite hook scripts the raw write's error and
+//     Write then does what writeDirectly does with it (default nil: every raw write succeeds).
 //
 // What it replaces — the read/write loops, the try-lock that keeps one Write
 // call's buffers contiguous, idle checker, transfer — is assumed, not checked.
@@ -21,7 +29,9 @@ import (
 	"context"
 	"errors"
 	"net"
+	"os"
 	"sync/atomic"
+	"syscall"
 	"time"
 
 	"github.com/rcrowley/go-metrics"
@@ -65,9 +75,15 @@ type Conn struct {
 	WriteAfterClose int
 
 	// client side
-	IsClient     bool
-	Outcome      ConnectOutcome
-	PreWrite     func(c *Conn) // called at the start of every Write
+	IsClient bool
+	Outcome  ConnectOutcome
+	PreWrite func(c *Conn) // called at the start of every Write
+	// FailWrite, if set, is asked where connection.writeDirectly calls doWrite (the write filters ran,
+	// the connection is not closed): a non-nil error is the error of the raw socket write. Nothing of
+	// that Write call is recorded as written; as in writeDirectly a timeout error (net.Error with
+	// Timeout()) closes the connection with (NoFlush, OnWriteTimeout) on the writing goroutine before
+	// Write returns the error, any other error is only returned.
+	FailWrite    func(c *Conn) error
 	broken       bool
 	connected    bool
 	connectN     int
@@ -118,6 +134,15 @@ func (c *Conn) InjectRead(b []byte) {
 		return
 	}
 	c.fm.OnRead()
+}
+
+// ErrWriteDeadline is the error a raw write returns when it runs into the write deadline
+// (net.Error, Timeout() == true), ErrWriteBroken one that is no timeout (EPIPE).
+func ErrWriteDeadline() error {
+	return &net.OpError{Op: "write", Net: "tcp", Err: os.ErrDeadlineExceeded}
+}
+func ErrWriteBroken() error {
+	return &net.OpError{Op: "write", Net: "tcp", Err: syscall.EPIPE}
 }
 
 // RemoteClose is the peer closing the connection (read loop sees EOF).
@@ -176,6 +201,14 @@ func (c *Conn) Write(bufs ...buffer.IoBuffer) (err error) {
 	if atomic.LoadUint32(&c.closed) == 1 {
 		c.WriteAfterClose++
 		return types.ErrConnectionHasClosed
+	}
+	if c.FailWrite != nil {
+		if werr := c.FailWrite(c); werr != nil {
+			if te, ok := werr.(net.Error); ok && te.Timeout() {
+				c.Close(api.NoFlush, api.OnWriteTimeout)
+			}
+			return werr
+		}
 	}
 	var out []byte
 	eof := false
